@@ -193,7 +193,64 @@ SUBDIM_CALLEE = dict(params=[("d", "Int"), ("k", "Int")], returns="Int",
 SUBDIM = dict(params=[("d", "Int"), ("k", "Int")], returns="Int", int64=True, requires=SUBDIM_CALLEE["requires"], ensures=["result == C(d, k)"],
               ghost={"entry": ["use('symm', d, k)", "use('C_out', d, k)", f"use('mul_bound', C(d, k), min(k, d - k), {INT32})"]})
 
+# occupation vector (0/1 entries) <-> first-quantised form (the strictly increasing list of occupied modes)
+SPEC.funs["CNT"] = ([SEQ, "Int"], "Int")          # number of ones among v[0..k)   (= sum_{j<k} v[j] for 0/1 vectors)
+LEMMAS["CNT_unfold"] = dict(params=[("v", SEQ), ("k", "Int")], lean="definition (recursive spec function)",
+                            formula="CNT(v, k) == ite(k <= 0, 0, CNT(v, k - 1) + v[k - 1])")
+LEMMAS["CNT_mono"] = dict(params=[("v", SEQ), ("a", "Int"), ("b", "Int")], lean="ghost lemma C06_fermi.cnt_mono (pyvc)",
+                          formula="implies(0 <= a and a <= b and forall(lambda j: v[j] == 0 or v[j] == 1, a, b), "
+                                  "CNT(v, a) <= CNT(v, b) and CNT(v, b) <= CNT(v, a) + (b - a))")
+GHOST_SRC += '''
+
+def cnt_mono(v, a, b):
+    i = a
+    while i < b:
+        i = i + 1
+    return 0
+'''
+GHOST["cnt_mono"] = dict(
+    params=[("v", SEQ), ("a", "Int"), ("b", "Int")], returns="Int",
+    requires=["0 <= a", "a <= b", "forall(lambda j: v[j] == 0 or v[j] == 1, a, b)"],
+    ensures=["CNT(v, a) <= CNT(v, b)", "CNT(v, b) <= CNT(v, a) + (b - a)"],
+    loops={"0": dict(invariant=["a <= i", "i <= b", "CNT(v, a) <= CNT(v, i)", "CNT(v, i) <= CNT(v, a) + (i - a)"])},
+    ghost={"loop[0].start": ["use('CNT_unfold', v, i + 1)"]})
+
+BITS = "forall(lambda j: occupation_numbers[j] == 0 or occupation_numbers[j] == 1, 0, len(occupation_numbers))"
+SUM_CALLEE = dict(params=[("v", SEQ)], returns="Int", requires=[], ensures=["result == CNT(v, len(v))"])
+TO_FIRST = dict(
+    params=[("occupation_numbers", SEQ)], returns=SEQ, int64=True, array_width=64,
+    requires=[BITS, f"len(occupation_numbers) <= {INT32}"],
+    ensures=["len(result) == CNT(occupation_numbers, len(occupation_numbers))",
+             # the k-th entry is the position of the k-th one: strictly increasing, exactly the occupied modes
+             "forall(lambda k: 0 <= result[k] and result[k] < len(occupation_numbers) and occupation_numbers[result[k]] == 1 and "
+             "CNT(occupation_numbers, result[k]) == k, 0, len(result))"],
+    loops={"0": dict(invariant=[
+        "0 <= i", "i <= len(occupation_numbers)", "len(first_quantized) == n", "n == CNT(occupation_numbers, len(occupation_numbers))",
+        "j == CNT(occupation_numbers, i)", "0 <= j", "j <= n",
+        "forall(lambda k: 0 <= first_quantized[k] and first_quantized[k] < i and occupation_numbers[first_quantized[k]] == 1 and "
+        "CNT(occupation_numbers, first_quantized[k]) == k, 0, j)"])},
+    ghost_before={"first_quantized = np.zeros": ["use('CNT_unfold', occupation_numbers, 0)",
+                                                 "use('CNT_mono', occupation_numbers, 0, len(occupation_numbers))"]},
+    ghost={"loop[0].before": ["use('CNT_unfold', occupation_numbers, 0)", "use('CNT_mono', occupation_numbers, 0, len(occupation_numbers))"],
+           "loop[0].start": ["use('CNT_unfold', occupation_numbers, i + 1)",
+                             "use('CNT_mono', occupation_numbers, i + 1, len(occupation_numbers))"]},
+)
+TO_SECOND = dict(
+    params=[("first_quantized", SEQ), ("d", "Int")], returns=SEQ, int64=True, array_width=64,
+    requires=["0 <= d", "forall(lambda j: 0 <= first_quantized[j] and first_quantized[j] < d, 0, len(first_quantized))"],
+    ensures=["len(result) == d", "forall(lambda m: result[m] == 0 or result[m] == 1, 0, d)",
+             "forall(lambda j: result[first_quantized[j]] == 1, 0, len(first_quantized))",
+             # a mode is occupied only if it is listed
+             "forall(lambda m: implies(forall(lambda j: first_quantized[j] != m, 0, len(first_quantized)), result[m] == 0), 0, d)"],
+    loops={"0": dict(invariant=["0 <= i", "i <= len(first_quantized)", "len(ret) == d",
+                                "forall(lambda m: ret[m] == 0 or ret[m] == 1, 0, d)",
+                                "forall(lambda j: ret[first_quantized[j]] == 1, 0, i)",
+                                "forall(lambda m: implies(forall(lambda j: first_quantized[j] != m, 0, i), ret[m] == 0), 0, d)"])},
+)
+
 FUNCTIONS = {
+    f"{REL}:_to_first_quantized": (TO_FIRST, {"sum": SUM_CALLEE}),
+    f"{REL}:_to_second_quantized": (TO_SECOND, {}),
     f"{REL}:next_first_quantized": (NEXT, {}),
     f"{REL}:get_fock_subspace_index_first_quantized": (RANK, {"comb": COMB_CALLEE}),
     f"{REL}:get_fock_subspace_dimension": (SUBDIM, {"comb": COMB_CALLEE}),
